@@ -42,6 +42,19 @@ REPORTED = {
                              "event the traceEvents array has a trailing comma (invalid JSON)",
     "argspec-text-overflow": "get_argspec_string wrote the argument text past the end of its buffer (replay 1 KiB, "
                              "dump 2 KiB): print_args let the remaining length wrap, print_char never looked at it",
+    "chrome-ptr-symbol-escape": "dump --chrome printed the symbol name a pointer argument resolves to raw inside the JSON "
+                                "string of the arguments / retval member",
+    "chrome-struct-name-escape": "dump --chrome printed the type name of a struct argument (from the argument spec / "
+                                 "debug info) raw inside the JSON string of the arguments member",
+    "graph-last-time-alias": "uftrace graph closed the open calls of a task whose last record is a perf (sched) event at the "
+                             "time of the last perf event of ANY task: task->rstack pointed to get_perf_record()'s one "
+                             "static record",
+    "chrome-close-sched-name": "dump --chrome ended the linux:schedule call of a task that is switched out when the data "
+                               "ends with an E event named <30d42> / <30d47> (the event id taken for an address)",
+    "chrome-comm-event-escape": "dump --chrome printed the new name of a renamed task (perf COMM event) raw into the "
+                                "process_name/thread_name metadata events",
+    "dump-sched-preempt": "do_dump_replay did not pass the sched-out event of a pre-empted task to the exporters: the "
+                          "sched-in that follows closed something never opened (chrome: E without B; graphs: wrong parent)",
     "chrome-comm-escape": "dump --chrome prints task->comm raw in the process_name/thread_name events: a double "
                           "quote or backslash in the executable's file name gives invalid JSON",
 }
@@ -111,6 +124,17 @@ def gen_case(rng, pool, big=False, avoid_trunc=True):
         argsym = nsym
         syms.append(b"strfn")
         nsym += 1
+    # scheduler events (perf: the task is switched out and in again = a leaf call of the pseudo function
+    # linux:schedule) and renames of running tasks (perf COMM events)
+    with_events = rng.random() < 0.25            # EVENT records in the .dat (read= / diff triggers): ignored by the exporters
+    uevents = []
+    with_perf = rng.random() < 0.3
+    sched_sym = None
+    comms = []
+    if with_perf and rng.random() < 0.8:
+        sched_sym = nsym
+        syms += [SCHED, SCHED_PRE]
+        nsym += 2
     ntask = rng.choice([1, 1, 2, 2, 3])
     tasks = [(100, 100, None)]
     if ntask >= 2:
@@ -130,16 +154,28 @@ def gen_case(rng, pool, big=False, avoid_trunc=True):
         tid = rng.choice(tasks)[0]
         st = stacks[tid]
         dt = rng.choice(steps)
-        if dt == 0 and tid != last_tid:
+        if dt == 0 and (tid != last_tid or with_perf or with_events):
             dt = 1                     # equal time stamps only inside one task (cross-task ties: property C06)
         clock += dt
-        if st and (len(st) >= maxd or rng.random() < 0.45):
+        if with_events and st and rng.random() < 0.15:
+            uevents.append((tid, clock, rng.choice([100001, 100003, 100002, 100004])))      # read/diff statm, page-fault
+            clock += 1
+        if with_perf and st and rng.random() < 0.12:
+            comms.append((clock, tid, rng.choice([b"worker", b'na"me', b"back\\slash", b"tab\there", b"\x01\x7f\xff", b"fifteen-bytes-xy",
+                                                   "caf\u00e9".encode(), pool.one()])[:15]))
+            clock += 1
+        if st and sched_sym is not None and st[-1] in (sched_sym, sched_sym + 1):
+            recs.append((tid, False, st.pop(), clock))             # switched in again
+        elif st and sched_sym is not None and rng.random() < 0.25:
+            st.append(sched_sym + rng.randrange(2))                # switched out / pre-empted inside a function
+            recs.append((tid, True, st[-1], clock))
+        elif st and (len(st) >= maxd or rng.random() < 0.45):
             recs.append((tid, False, st.pop(), clock))
         else:
             if st and recursion and rng.random() < 0.5:
                 k = st[-1] if rng.random() < 0.5 else rng.choice(st)      # direct / mutual recursion
             else:
-                k = rng.randrange(nsym)
+                k = rng.randrange(nsym - (2 if sched_sym is not None else 0))
             st.append(k)
             recs.append((tid, True, k, clock))
             budget -= 1
@@ -149,16 +185,36 @@ def gen_case(rng, pool, big=False, avoid_trunc=True):
     for tid, _, _ in tasks:
         st = stacks[tid]
         keep = rng.randrange(0, len(st) + 1) if (leave_open and st) else 0
+        if st and sched_sym is not None and st[-1] in (sched_sym, sched_sym + 1) and rng.random() < 0.7:
+            keep = min(keep, len(st) - 1)                          # mostly not left switched out
         while len(st) > keep:
             clock += rng.choice(steps[1:])
             recs.append((tid, False, st.pop(), clock))
+    # a task that stops at one of its scheduler events (switched out for good, or switched in and then killed) while the
+    # others go on: its open calls end at ITS last record (class of defect graph-last-time-alias)
+    if sched_sym is not None and len(tasks) >= 2 and rng.random() < 0.5:
+        early = rng.choice(tasks)[0]
+        idx = [i for i, r in enumerate(recs) if r[0] == early and r[2] in (sched_sym, sched_sym + 1)]
+        if idx:
+            i = rng.choice(idx)
+            cut = recs[i][3]
+            recs = [r for j, r in enumerate(recs) if r[0] != early or j <= i]
+            comms = [c for c in comms if c[1] != early or c[0] < cut]
+            uevents = [u for u in uevents if u[0] != early or u[1] < cut]
     # a task without any record is dropped from the directory (its .dat would be empty)
     # string arguments / return values on the calls of one plainly named function
     strs = {}
     argkinds = ""
+    tname = rng.choice([None, b"<lambda", b"st", pool.one(), pool.one(), pool.one()])
+    if tname is not None and tname != b"<lambda" and not tname_ok(tname):
+        tname = bytes(c for c in tname if c not in b",;%@\n\0") or None
+    tsize = rng.choice([0, 4, 8, 16, 20])
     if argsym is not None:
         heavy = rng.random() < 0.35                 # many / long / escape-heavy arguments: text beyond 1 KiB and 2 KiB
-        argkinds = "".join(rng.choice("sssc") for _ in range(rng.randrange(4, 11) if heavy else rng.randrange(1, 4)))
+        letters = "ssscpu" + ("tfdixo" if rng.random() < 0.5 else "")
+        argkinds = "".join(rng.choice(letters) for _ in range(rng.randrange(4, 11) if heavy else rng.randrange(1, 4)))
+        if tsize == 0 and set(argkinds) <= {"t"}:
+            tsize = 8           # empty structs only = an empty payload = a record without arguments
 
         def one_string(long_ok):
             k = rng.randrange(7)
@@ -177,8 +233,25 @@ def gen_case(rng, pool, big=False, avoid_trunc=True):
         for i, r in enumerate(recs):
             if r[2] == argsym and rng.random() < 0.8:
                 if r[1]:
-                    strs[i] = [("s", one_string(heavy)) if kd == "s" else
-                               ("c", rng.choice(SPECIAL + [0x41, 9, 10, 0, 0x27])) for kd in argkinds]
+                    def one_arg(kd):
+                        if kd == "s":
+                            return ("s", one_string(heavy))
+                        if kd == "c":
+                            return ("c", rng.choice(SPECIAL + [0x41, 9, 10, 0, 0x27]))
+                        if kd == "p":      # a pointer: to one of the functions (printed as &name), null, or anywhere else
+                            return ("p", rng.choice([BASE + 0x1000 + 0x100 * rng.randrange(nsym)] * 3 +
+                                                    [0, 0x10, 0x7ffd12345678, (1 << 64) - 1, BASE + 0xfff]))
+                        if kd == "t":      # a struct passed by value: only its type name and {...} / {} are shown
+                            return ("t", 0)
+                        if kd == "f":      # a double k/64 (six decimals, exact), as (k << 1 | sign)
+                            return ("f", rng.choice([0, 1, 2, 3, 64 << 1, (64 << 1) | 1, 127 << 1, rng.randrange(1 << 20),
+                                                     rng.randrange(1 << 51)]))
+                        if kd in "dixo":   # auto / signed / hex / octal: the boundaries of the auto format
+                            return (kd, rng.choice([0, 1, 7, 8, 100000, 100001, (1 << 64) - 1, (1 << 64) - 100000,
+                                                    (1 << 64) - 100001, 0xffff0000, 0xffff0001, 0xffffffff, 1 << 32,
+                                                    1 << 63, rng.randrange(1 << 64), rng.randrange(1 << 20)]))
+                        return ("u", rng.choice([0, 1, 99999, 100000, 100001, 1 << 32, (1 << 64) - 1, rng.randrange(1 << 40)]))
+                    strs[i] = [one_arg(kd) for kd in argkinds]
                 else:
                     strs[i] = [("s", one_string(heavy))]
     used = {r[0] for r in recs}
@@ -215,7 +288,8 @@ def gen_case(rng, pool, big=False, avoid_trunc=True):
     sample = min(sample, 999999999)
     exe = rng.choice(["prog", "prog", "a.out", "t-abc_1.2", "x"])
     return {"tasks": tasks, "syms": syms, "recs": recs, "sample": max(1, sample), "exe": exe,
-            "argsym": argsym, "strs": strs, "argkinds": argkinds}
+            "argsym": argsym, "strs": strs, "argkinds": argkinds, "tname": tname, "tsize": tsize, "sched_sym": sched_sym, "comms": comms, "uevents": uevents,
+            "lead_in": [t[0] for t in tasks if with_perf and rng.random() < 0.5]}
 
 
 # ---------------------------------------------------------------------------------------------
@@ -237,15 +311,34 @@ def write_dir(case, d, cmdline=b"prog arg", with_cmdline=True, exename=None):
             return b""
         b = b""
         for kd, x in v:                  # read_task_arg: every argument is padded to 4 bytes
-            b += (struct.pack("<H", len(x)) + x) if kd == "s" else bytes([x])
+            if kd == "s":
+                b += struct.pack("<H", len(x)) + x
+            elif kd == "c":
+                b += bytes([x])
+            elif kd == "t":
+                b += b"\xa5" * (case.get("tsize") or 0)
+            elif kd == "f":
+                b += struct.pack("<d", (-1.0 if x & 1 else 1.0) * (x >> 1) / 64.0)
+            else:
+                b += struct.pack("<Q", x)
             b += b"\0" * (-len(b) % 4)
         return b
     for tid, pid, ppid in case["tasks"]:
         rr = [{"t": t, "type": datadir.ENTRY if ent else datadir.EXIT, "depth": 0, "addr": BASE + syms[k][0],
-               "payload": payload(i)}
+               "payload": payload(i),
+               "sched": case.get("sched_sym") is not None and k in (case["sched_sym"], case["sched_sym"] + 1)}
               for i, (x, ent, k, t) in enumerate(case["recs"]) if x == tid]
+        for (etid, etm, eid) in case.get("uevents") or []:
+            if etid == tid:
+                n3 = 3 if eid in (100001, 100003) else 2             # statm: 3 values, page-fault: 2
+                rr.append({"t": etm, "type": datadir.EVENT, "depth": 0, "addr": eid, "sched": False, "uevent": True,
+                           "payload": struct.pack("<H", 8 * n3) + struct.pack("<%dQ" % n3, *([1000, 200, 30][:n3]))})
+        rr.sort(key=lambda r: r["t"])
         depth = 0
         for r in rr:                       # depth field as libmcount writes it
+            if r.get("uevent"):
+                r["depth"] = depth
+                continue
             if r["type"] == datadir.ENTRY:
                 r["depth"] = depth
                 depth += 1
@@ -253,13 +346,68 @@ def write_dir(case, d, cmdline=b"prog arg", with_cmdline=True, exename=None):
                 depth -= 1
                 r["depth"] = depth
         tasks.append({"tid": tid, "pid": pid, "ppid": ppid, "recs": rr, "start": 200 + tid})
-    desc = {"syms": syms, "base": BASE, "tasks": tasks, "cmdline": cmdline,
+    perf = perf_file(case)
+    desc = {"syms": syms, "base": BASE, "tasks": tasks, "cmdline": cmdline, "events": bool(perf) or bool(case.get("uevents")),
             "exename": exename or ("/fake/" + case["exe"]), "args": bool(strs)}
+    if perf:
+        for t in tasks:        # the scheduler records of a task live in the perf file, not in its .dat
+            t["recs"] = [r for r in t["recs"] if not r.get("sched")]
     datadir.write(desc, d, with_cmdline=with_cmdline,
-                  argspec={"argspec": "strfn@" + ",".join("arg%d/%s" % (n + 1, kd) for n, kd in
+                  argspec={"argspec": "strfn@" + ",".join(spec_of(case, n, kd) for n, kd in
                                                           enumerate(case.get("argkinds") or "s")),
                            "retspec": "strfn@retval/s"} if strs else None)
+    if strs and case.get("tname") is not None:
+        path = os.path.join(d, "info")
+        b = open(path, "rb").read()
+        open(path, "wb").write(b.replace(TNAME_MARK, case["tname"]))
+    if perf:
+        path = os.path.join(d, "info")
+        b = bytearray(open(path, "rb").read())
+        struct.pack_into("<Q", b, 16, struct.unpack_from("<Q", b, 16)[0] | datadir.FEAT_PERF_EVENT)
+        open(path, "wb").write(bytes(b))
+        open(os.path.join(d, "perf-cpu0.dat"), "wb").write(perf)
     return d
+
+
+TNAME_MARK = b"TYPENAMEGOESHERE"
+
+
+def spec_of(case, n, kd):
+    """the argument spec as record stores it in the info file; the type name of a struct (any bytes) is put in afterwards"""
+    if kd == "t":
+        return "arg%d/t%d%s" % (n + 1, case.get("tsize") or 0, "" if case.get("tname") is None else ":" + TNAME_MARK.decode())
+    return "arg%d/%s" % (n + 1, kd)
+
+
+def tname_ok(n):
+    return bool(n) and not any(c in n for c in b",;%@\n\0") and n != b"<lambda"
+
+
+SCHED = b"linux:schedule"
+SCHED_PRE = b"linux:schedule (pre-empted)"
+
+
+def perf_file(case):
+    """perf-cpu0.dat: context switches (the records of the pseudo function linux:schedule: ENTRY = switched out,
+    EXIT = switched in again) and task renames (case["comms"] = [(time, tid, name bytes)]) in time order"""
+    k = case.get("sched_sym")
+    evs = []
+    pid_of = {t[0]: t[1] for t in case["tasks"]}
+    if k is not None:
+        for (tid, ent, sym, tm) in case["recs"]:
+            if sym in (k, k + 1):            # k: switched out, k + 1: pre-empted (PERF_RECORD_MISC_SWITCH_OUT_PREEMPT)
+                misc = (0x2000 | (0x4000 if sym == k + 1 else 0)) if ent else 0
+                evs.append((tm, struct.pack("<IHH", 14, misc, 24) + struct.pack("<IIQ", pid_of[tid], tid, tm)))
+    for tid in case.get("lead_in") or []:
+        # a task that starts with a sched-in event (it was switched in for the first time): to be ignored
+        first = min(r[3] for r in case["recs"] if r[0] == tid)
+        evs.append((first - 1, struct.pack("<IHH", 14, 0, 24) + struct.pack("<IIQ", pid_of[tid], tid, first - 1)))
+    for (tm, tid, name) in case.get("comms") or []:
+        cm = name[:15] + b"\0"
+        cm += b"\0" * (-len(cm) % 8)
+        body = struct.pack("<II", pid_of[tid], tid) + cm + struct.pack("<IIQ", pid_of[tid], tid, tm)
+        evs.append((tm, struct.pack("<IHH", 3, 0, 8 + len(body)) + body))
+    return b"".join(e for _, e in sorted(evs, key=lambda x: x[0]))
 
 
 def uft(objdir, args, timeout=60):
@@ -443,10 +591,26 @@ def copts(l):
     return "[" + "; ".join("None" if x is None else "Some %s" % cb(x) for x in l) + "]"
 
 
-def cargs(l):
-    """per record: None | Some [AStr bytes; AChr n; ...]"""
-    return "[" + "; ".join("None" if v is None else "Some [%s]" % "; ".join(
-        ("AStr %s" % cb(x)) if kd == "s" else ("AChr (n_ %d)" % x) for kd, x in v) for v in l) + "]"
+def cargs(l, syms=(), tname=None, tsize=0):
+    """per record: None | Some [AStr bytes; AChr n; APtr (Some name|None) v; AUint v ...]"""
+    def one(kd, x):
+        if kd == "s":
+            return "AStr %s" % cb(x)
+        if kd == "c":
+            return "AChr (n_ %d)" % x
+        if kd == "u":
+            return "AUint %s" % cn(x)
+        if kd == "t":
+            return "AStruct %s %d" % ("None" if tname is None else "(Some %s)" % cb(tname), tsize)
+        if kd == "f":
+            return "AFlt %s %s" % ("true" if x & 1 else "false", cn(x >> 1))
+        if kd in "dixo":
+            return "%s %s" % ({"d": "AAuto", "i": "ASint", "x": "AHex", "o": "AOct"}[kd], cn(x))
+        k, off = divmod(x - BASE - 0x1000, 0x100)
+        # task_find_sym_addr: the symbol whose [addr, addr + size) holds the value (size 0x80)
+        nm = syms[k] if (0 <= k < len(syms) and off < 0x80) else None
+        return "APtr %s %s" % ("None" if nm is None else "(Some %s)" % cb(nm), cn(x))
+    return "[" + "; ".join("None" if v is None else "Some [%s]" % "; ".join(one(kd, x) for kd, x in v) for v in l) + "]"
 
 
 def crow(r):
@@ -474,7 +638,7 @@ def ccase(c, p):
         "; ".join(crow(r) for r in p["graph"]),
         clines(p["flame0"]), clines(p["flameS"]), clines(p["dot"]), clines(p["mermaid"]),
         "; ".join(ccev(e) for e in p["chrome"]), "true" if p["json_ok"] else "false",
-        cargs([(c.get("strs") or {}).get(i) for i in range(len(c["recs"]))]),
+        cargs([(c.get("strs") or {}).get(i) for i in range(len(c["recs"]))], c["syms"], c.get("tname"), c.get("tsize") or 0),
         copts([e[6] for e in p["chrome"]]))
 
 
@@ -505,10 +669,12 @@ def evaluate_cases(ctx, cases, parsed, name="cases", flame_fixed=False):
     ctx.extra["chrome_documents_not_sent_to_coq"] = len(docs) - len(kept)
     docs = kept
     defs += "Definition docs : list dcase := [\n%s\n].\n" % ";\n".join(
-        "mk_dcase (nth %d%%nat cases (mk_case [] [] [] [] 0%%N [] [] [] [] [] [] true [] [])) [%s] %s %s %s %s %s" % (
+        "mk_dcase (nth %d%%nat cases (mk_case [] [] [] [] 0%%N [] [] [] [] [] [] true [] [])) [%s] %s %s %s %s %s %s" % (
             i, "; ".join("cm %d %s" % (t, cb(cmm)) for t, cmm in dd["comms"]), cb(dd["version"]), cb(dd["date"]),
             "None" if dd["cmdline"] is None else "(Some %s)" % cb(dd["cmdline"]),
-            "true" if dd["noev"] else "false", cb(dd["raw"])) for i, dd in docs)
+            "true" if dd["noev"] else "false",
+            "[%s]" % "; ".join("rn %s %d %s" % (cn(tm), tid, cb(nm)) for tm, tid, nm in dd.get("renames", [])),
+            cb(dd["raw"])) for i, dd in docs)
     fcs = [(i, p["graphf"]) for i, p in enumerate(parsed) if p.get("graphf") is not None]
     defs += "Definition fcases : list fcase := [\n%s\n].\n" % ";\n".join(
         "mk_fcase (nth %d%%nat cases (mk_case [] [] [] [] 0%%N [] [] [] [] [] [] true [] [])) %s %s" % (
@@ -524,6 +690,12 @@ def evaluate_cases(ctx, cases, parsed, name="cases", flame_fixed=False):
                                    for key, hit, tm in blocks)) for i, (func, blocks) in bcs)
     evals.append(("mismatch_bt", "bad_indices agree_bt bcases 0"))
     evals.append(("violation_bt", "bad_indices okc_bt bcases 0"))
+    acs = [(i, p["flameA"]) for i, p in enumerate(parsed) if p.get("flameA") is not None]
+    defs += "Definition acases : list acase := [\n%s\n].\n" % ";\n".join(
+        "mk_acase (nth %d%%nat cases (mk_case [] [] [] [] 0%%N [] [] [] [] [] [] true [] [])) %s %s" % (
+            i, cn(total), clines(lines)) for i, (total, lines) in acs)
+    evals.append(("mismatch_flameA", "bad_indices agree_flameA acases 0"))
+    evals.append(("violation_flameA", "bad_indices okc_flameA acases 0"))
     tcs = [(i, tx) for i, p in enumerate(parsed) for tx in p.get("texts", [])]
     defs += "Definition tcases : list tcase := [\n%s\n].\n" % ";\n".join(
         "mk_tcase (nth %d%%nat cases (mk_case [] [] [] [] 0%%N [] [] [] [] [] [] true [] [])) %s %s" % (
@@ -557,6 +729,8 @@ def evaluate_cases(ctx, cases, parsed, name="cases", flame_fixed=False):
         return None
     res = {k: coq.parse_nat_list(v) for k, v in res.items()}
     res["muts"] = muts
+    res["flameA_owner"] = [i for i, _ in acs]
+    res["flameA_list"] = [a for _, a in acs]
     res["bt_owner"] = [i for i, _ in bcs]
     res["bt_list"] = [b for _, b in bcs]
     res["text_owner"] = [i for i, _ in tcs]
@@ -570,7 +744,9 @@ def evaluate_cases(ctx, cases, parsed, name="cases", flame_fixed=False):
 
 def case_json(c, p=None):
     j = {"tasks": c["tasks"], "syms": [s.hex() for s in c["syms"]], "recs": c["recs"], "sample": c["sample"],
-         "exe": c["exe"], "argkinds": c.get("argkinds") or "",
+         "exe": c["exe"], "argkinds": c.get("argkinds") or "", "sched_sym": c.get("sched_sym"), "lead_in": c.get("lead_in") or [], "uevents": c.get("uevents") or [],
+         "tname": None if c.get("tname") is None else c["tname"].hex(), "tsize": c.get("tsize") or 0,
+         "comms": [[tm, tid, nm.hex()] for tm, tid, nm in (c.get("comms") or [])],
          "strs": {str(i): [[kd, x.hex() if kd == "s" else x] for kd, x in v] for i, v in (c.get("strs") or {}).items()}}
     if p is not None:
         j["impl"] = {"graph": [[r[0], r[1].hex(), r[2], r[3]] for r in p["graph"]],
@@ -587,7 +763,9 @@ def case_json(c, p=None):
 def case_from_json(j):
     return {"tasks": [tuple(t) for t in j["tasks"]], "syms": [bytes.fromhex(s) for s in j["syms"]],
             "recs": [tuple(r) for r in j["recs"]], "sample": j["sample"], "exe": j["exe"],
-            "argkinds": j.get("argkinds") or "",
+            "argkinds": j.get("argkinds") or "", "sched_sym": j.get("sched_sym"), "lead_in": j.get("lead_in") or [], "uevents": [tuple(u) for u in (j.get("uevents") or [])],
+            "tname": None if j.get("tname") is None else bytes.fromhex(j["tname"]), "tsize": j.get("tsize") or 0,
+            "comms": [(tm, tid, bytes.fromhex(nm)) for tm, tid, nm in (j.get("comms") or [])],
             "strs": {int(i): [(kd, bytes.fromhex(x) if kd == "s" else x) for kd, x in v]
                      for i, v in (j.get("strs") or {}).items()}}
 
@@ -601,8 +779,12 @@ def doc_inputs(c, raw, cmdline, with_cmdline, noev=False):
     if not m:
         raise ParseError("no version/recorded_time in the chrome output")
     comm = os.path.basename(c["exe"]).encode()[:15]
-    return {"comms": [(t[0], comm) for t in c["tasks"]], "version": m.group(1), "date": m.group(2),
-            "cmdline": cmdline if with_cmdline else None, "noev": noev, "raw": raw}
+    last = {}
+    for tm, tid, nm in ([] if noev else c.get("comms") or []):
+        last[tid] = nm                        # update_perf_task_comm: the header shows the last name (of the time range)
+    return {"comms": [(t[0], last.get(t[0], comm)) for t in c["tasks"]], "version": m.group(1), "date": m.group(2),
+            "cmdline": cmdline if with_cmdline else None, "noev": noev, "raw": raw,
+            "renames": [] if noev else list(c.get("comms") or [])}
 
 
 def run_case(objdir, c, d, cmdline=b"prog arg", with_cmdline=True):
@@ -683,7 +865,7 @@ def parse_backtraces(out):
 
 def run_graphf(objdir, c, d, rng, func=None):
     """`uftrace graph FUNC` on the directory written by run_case -> (func, rows | None)"""
-    cands = [n for n in set(c["syms"]) if not n.startswith(b"-")]
+    cands = [n for n in set(c["syms"]) if not n.startswith(b"-") and n not in (SCHED, SCHED_PRE)]
     if func is None:
         nested = sorted(n for n in cands if "nested" in func_shape(c, n))
         if nested and rng.random() < 0.6:
@@ -700,6 +882,26 @@ def run_graphf(objdir, c, d, rng, func=None):
             raise ParseError("graph FUNC printed neither a graph nor a backtrace: %r" % out[:200])
         return func, [], out
     return func, parse_graph(out), out
+
+
+def run_flame_auto(objdir, c, d, rng):
+    """give the directory a record date and an elapsed time (as `record` writes them) and let dump --flame-graph pick
+    the sample time itself -> (total_ns as the C code computes it, lines)"""
+    lo, hi = min(r[3] for r in c["recs"]), max(r[3] for r in c["recs"])
+    el = rng.choice([hi - lo + 1, 999999999, 1000000000, 1000000001, 10 ** 10 - 1, 10 ** 10 + 1, 10 ** 12, 12345,
+                     10 ** 15 + 1, 10 ** 16, rng.randrange(1, 10 ** rng.randrange(3, 17))])
+    text = "%d.%09d sec" % (el // 10 ** 9, el % 10 ** 9)
+    total = int(float(text.split()[0]) * 1e9)                  # strtod(...) * 1e9 converted to uint64_t
+    path = os.path.join(d, "info")
+    b = bytearray(open(path, "rb").read())
+    mask = struct.unpack_from("<Q", b, 24)[0] | datadir.INFO_RECORD_DATE
+    struct.pack_into("<Q", b, 24, mask)
+    b += b"record_date:Thu Oct  1 00:00:00 2026\nelapsed_time:" + text.encode() + b"\n"
+    open(path, "wb").write(bytes(b))
+    rc, out, err = uft(objdir, ["dump", "--flame-graph", "--no-pager", "-d", d])
+    if rc != 0:
+        raise ParseError("uftrace dump --flame-graph (automatic sample time) exited with %d: %r" % (rc, err[-200:]))
+    return total, parse_flame(out)
 
 
 def run_noev(objdir, c, d, rng, cmdline=b"prog arg", with_cmdline=True):
@@ -961,6 +1163,72 @@ def witnesses(ctx, objdir, hexe):
     repro["argspec-text-overflow"] = bool(bad)
     report_defect(ctx, "argspec-text-overflow", bool(bad),
                   {"kind": "witness", "asan": True, "failing_commands": bad, "case": case_json(heavy)})
+    # 8. a pointer argument / return value that resolves to a symbol whose name needs escaping
+    ptrc = {"tasks": [(100, 100, None)], "syms": [b"main", b"strfn", b'we"ird\\name', b"tab\x01ctl"], "sample": 1, "exe": "prog",
+            "argkinds": "pp", "recs": [(100, True, 0, 1000), (100, True, 1, 1100), (100, False, 1, 1200), (100, False, 0, 1300)],
+            "strs": {1: [("p", BASE + 0x1200), ("p", BASE + 0x1300)]}}
+    write_dir(ptrc, d)
+    rc, out, err = uft(objdir, ["dump", "--chrome", "--no-pager", "-d", d])
+    ctx.case(key=("wit", "ptrsym"), tags=["witness:pointer-symbol-name"])
+    repro["chrome-ptr-symbol-escape"] = rc != 0 or not parse_chrome(out)[0]
+    report_defect(ctx, "chrome-ptr-symbol-escape", repro["chrome-ptr-symbol-escape"],
+                  {"kind": "witness", "pointer_to": 'we"ird\\name', "case": case_json(ptrc)})
+    # 9. a task renamed while it runs (perf COMM event) to a name that needs escaping
+    renc = dict(base, comms=[(1150, 100, b'na"me\\x')])
+    write_dir(renc, d)
+    rc, out, err = uft(objdir, ["dump", "--chrome", "--no-pager", "-d", d])
+    ctx.case(key=("wit", "rename"), tags=["witness:renamed-task"])
+    repro["chrome-comm-event-escape"] = rc != 0 or not parse_chrome(out)[0] or out.count(b'"process_name"') != 2
+    report_defect(ctx, "chrome-comm-event-escape", repro["chrome-comm-event-escape"],
+                  {"kind": "witness", "renamed_to": 'na"me\\x', "case": case_json(renc)})
+    # 10. a pre-empted context switch inside a function
+    prec = {"tasks": [(100, 100, None)], "syms": [b"main", b"f", SCHED, SCHED_PRE], "sched_sym": 2, "sample": 100, "exe": "prog",
+            "recs": [(100, True, 0, 1000), (100, True, 1, 1100), (100, True, 3, 1300), (100, False, 3, 1400),
+                     (100, True, 1, 1500), (100, False, 1, 1600), (100, False, 1, 2200), (100, False, 0, 2500)]}
+    write_dir(prec, d)
+    rc, out, err = uft(objdir, ["dump", "--chrome", "--no-pager", "-d", d])
+    okj, evs, _, _ = parse_chrome(out)
+    rc2, out2, err2 = uft(objdir, ["dump", "--flame-graph", "--no-pager", "-d", d])
+    ctx.case(key=("wit", "preempt"), tags=["witness:pre-empted-switch"])
+    repro["dump-sched-preempt"] = (rc != 0 or not okj or sum(1 for e in evs if e[0]) != sum(1 for e in evs if not e[0])
+                                   or b"main;f;f 1" not in out2)
+    report_defect(ctx, "dump-sched-preempt", repro["dump-sched-preempt"], {"kind": "witness", "case": case_json(prec)})
+    # 11. a struct passed by value whose type name needs escaping
+    stc = {"tasks": [(100, 100, None)], "syms": [b"main", b"strfn"], "sample": 1, "exe": "prog", "argkinds": "tt",
+           "tname": b'pa"ir<\\x>', "tsize": 8,
+           "recs": [(100, True, 0, 1000), (100, True, 1, 1100), (100, False, 1, 1200), (100, False, 0, 1300)],
+           "strs": {1: [("t", 0), ("t", 0)]}}
+    write_dir(stc, d)
+    rc, out, err = uft(objdir, ["dump", "--chrome", "--no-pager", "-d", d])
+    ctx.case(key=("wit", "structname"), tags=["witness:struct-type-name"])
+    repro["chrome-struct-name-escape"] = rc != 0 or not parse_chrome(out)[0]
+    report_defect(ctx, "chrome-struct-name-escape", repro["chrome-struct-name-escape"],
+                  {"kind": "witness", "type_name": 'pa"ir<\\x>', "case": case_json(stc)})
+    # 12. a task switched out for good while another one goes on having sched events: its open calls end at ITS last record
+    lastc = {"tasks": [(100, 100, None), (101, 100, None)], "syms": [b"main", b"f", SCHED, SCHED_PRE], "sched_sym": 2,
+             "sample": 100, "exe": "prog",
+             "recs": [(100, True, 0, 1000), (101, True, 0, 1050), (100, True, 1, 1100), (100, True, 2, 1300),
+                      (101, True, 2, 2000), (101, False, 2, 2100), (101, False, 0, 2500)]}
+    write_dir(lastc, d)
+    rc, out, err = uft(objdir, ["graph", "--no-pager", "-d", d])
+    ctx.case(key=("wit", "lasttime"), tags=["witness:last-record-is-sched-out"])
+    try:
+        rows = parse_graph(out)
+    except ParseError:
+        rows = []
+    ftime = [r[3] for r in rows if r[1] == b"f"]
+    repro["graph-last-time-alias"] = rc != 0 or ftime != [(0, 200, 0)]
+    report_defect(ctx, "graph-last-time-alias", repro["graph-last-time-alias"],
+                  {"kind": "witness", "time_of_f": ftime, "expected": [0, 200, 0], "case": case_json(lastc)})
+    # 13. the same directory through dump --chrome: task 100 is switched out when the data ends
+    rc, out, err = uft(objdir, ["dump", "--chrome", "--no-pager", "-d", d])
+    okj, evs, _, _ = parse_chrome(out)
+    ctx.case(key=("wit", "stuck"), tags=["witness:switched-out-at-the-end"])
+    names100 = [e[3] for e in evs if e[2] is None]
+    repro["chrome-close-sched-name"] = (rc != 0 or not okj or
+                                        names100 != [b"main", b"f", b"linux:schedule", b"linux:schedule", b"f", b"main"])
+    report_defect(ctx, "chrome-close-sched-name", repro["chrome-close-sched-name"],
+                  {"kind": "witness", "names_of_task_100": [n.decode("latin-1") for n in names100], "case": case_json(lastc)})
     # sanity: the plain directory is valid JSON
     ok, out = chrome_ok()
     if not ok:
@@ -1049,6 +1317,24 @@ def verdict(ctx, cases, parsed, res, flame_fixed=False):
                        "case": case_json(cases[i], parsed[i])}, False)
         anyviol = True
     ctx.extra["graph_func_cases"] = len(res.get("graphf_list", []))
+    # dump --flame-graph with the sample time it picks itself (data with a record date, i.e. every real recording)
+    for j in res.get("violation_flameA", [])[:2]:
+        anyviol = True
+        i = res["flameA_owner"][j]
+        ctx.violation("C15 violated: dump --flame-graph with its automatic sample time is not the projection of the trace",
+                      {"kind": "dir", "output": "flame-auto", "elapsed_total_ns": res["flameA_list"][j][0],
+                       "lines": [l.decode("latin-1") for l in res["flameA_list"][j][1]],
+                       "case": case_json(cases[i], parsed[i])}, True)
+    if not anyviol and res.get("mismatch_flameA"):
+        j = res["mismatch_flameA"][0]
+        i = res["flameA_owner"][j]
+        ctx.violation("model and implementation disagree on dump --flame-graph with the automatic sample time (%d cases); "
+                      "the checker accepts every explored output" % len(res["mismatch_flameA"]),
+                      {"kind": "dir", "output": "flame-auto", "elapsed_total_ns": res["flameA_list"][j][0],
+                       "lines": [l.decode("latin-1") for l in res["flameA_list"][j][1]],
+                       "case": case_json(cases[i], parsed[i])}, False)
+        anyviol = True
+    ctx.extra["flame_auto_sample_cases"] = len(res.get("flameA_list", []))
     # the BACKTRACE section of graph FUNC
     for j in res.get("violation_bt", [])[:2]:
         anyviol = True
@@ -1153,11 +1439,33 @@ def tags_of(c):
         t.append("open-calls")
     if any(p[2] is not None for p in c["tasks"]):
         t.append("forked-task")
+    if c.get("sched_sym") is not None and any(r[2] == c["sched_sym"] for r in c["recs"]):
+        t.append("perf:sched-out/in")
+    if c.get("sched_sym") is not None and any(r[2] == c["sched_sym"] + 1 for r in c["recs"]):
+        t.append("perf:pre-empted")
+    if c.get("lead_in"):
+        t.append("perf:task-starts-with-sched-in")
+    if c.get("uevents"):
+        t.append("event-records-in-dat(ignored)")
+    if c.get("comms"):
+        t.append("perf:task-renamed")
+        if any(b in (0x22, 0x5c) or b < 0x20 or b > 0x7e for _, _, nm in c["comms"] for b in nm):
+            t.append("perf:task-renamed-special-bytes")
+    if c.get("sched_sym") is not None:
+        k = c["sched_sym"]
+        perf_times = [r[3] for r in c["recs"] if r[2] in (k, k + 1)] + [cm[0] for cm in (c.get("comms") or [])]
+        for tid in {r[0] for r in c["recs"]}:
+            mine = [r for r in c["recs"] if r[0] == tid]
+            depth = sum(1 if r[1] else -1 for r in mine)
+            if mine[-1][2] in (k, k + 1) and depth > 0:
+                t.append("task-ends-switched-out" if mine[-1][1] else "task-ends-at-sched-in-with-open-calls")
+                if any(pt > mine[-1][3] for pt in perf_times):
+                    t.append("task-ends-at-sched-event,later-perf-event-elsewhere")
     allargs = list((c.get("strs") or {}).values())
     if allargs:
         t.append("string-args")
         t.append("args:arity=%d" % len(c.get("argkinds") or "s"))
-        blob = b"".join(x if kd == "s" else bytes([x]) for v in allargs for kd, x in v)
+        blob = b"".join(x if kd == "s" else bytes([x]) if kd == "c" else b"" for v in allargs for kd, x in v)
         for b, lab in ((0x22, "arg:quote"), (0x5c, "arg:backslash"), (9, "arg:tab"), (10, "arg:newline"), (0xff, "arg:0xff")):
             if b in blob:
                 t.append(lab)
@@ -1165,11 +1473,37 @@ def tags_of(c):
             t.append("arg:NULL")
         if any(kd == "c" for v in allargs for kd, x in v):
             t.append("arg:char")
+        if any(kd == "u" for v in allargs for kd, x in v):
+            t.append("arg:uint")
+        for v in allargs:
+            for kd, x in v:
+                if kd == "t":
+                    tn = c.get("tname")
+                    t.append("arg:struct-unnamed" if tn is None else "arg:struct-lambda" if tn == b"<lambda" else
+                             "arg:struct-name-special-bytes" if any(b in (0x22, 0x5c) or b < 0x20 or b > 0x7e for b in tn)
+                             else "arg:struct-named")
+                    t.append("arg:struct-empty" if not c.get("tsize") else "arg:struct-nonempty")
+                if kd == "f":
+                    t.append("arg:double-negative" if x & 1 else "arg:double")
+                if kd == "d":
+                    t.append("arg:auto-%s" % ("decimal" if (x <= 100000 or x >= (1 << 64) - 100000) else
+                                              "int32-negative" if 0xffff0000 < x <= 0xffffffff else "hex"))
+                if kd in "ixo":
+                    t.append("arg:%s%s" % ({"i": "signed", "x": "hex", "o": "octal"}[kd], "-zero" if x == 0 else ""))
+                if kd == "p":
+                    k, off = divmod(x - BASE - 0x1000, 0x100)
+                    if 0 <= k < len(c["syms"]) and off < 0x80:
+                        t.append("arg:pointer-to-symbol")
+                        if any(b in (0x22, 0x5c) or b < 0x20 or b > 0x7e for b in c["syms"][k]):
+                            t.append("arg:pointer-to-symbol-with-special-bytes")
+                    else:
+                        t.append("arg:pointer-raw")
+        t = sorted(set(t))
 
         def esc_len(bs):
             return sum(1 if (32 <= b < 127 and b not in (0x22, 0x5c)) else 2 if b in (0x22, 0x5c) else 3 if b in (9, 10) else 5
                        for b in bs)
-        big = max(sum(4 + esc_len(x.split(b"\0")[0]) + 2 if kd == "s" else 7 for kd, x in v) for v in allargs)
+        big = max(sum(4 + esc_len(x.split(b"\0")[0]) + 2 if kd == "s" else 7 if kd == "c" else 22 for kd, x in v) for v in allargs)
         t.append("args:text<=1KiB" if big <= 1000 else "args:text>1KiB" if big <= 2040 else "args:text>2KiB(truncated)")
     return t
 
@@ -1234,7 +1568,17 @@ def run(ctx):
         fixed.append({"tasks": [(100, 100, None)], "syms": [b"main", b"strfn"], "sample": 1, "exe": "prog", "argkinds": "ss",
                       "recs": [(100, True, 0, 1000), (100, True, 1, 1100), (100, False, 1, 1200), (100, False, 0, 1300)],
                       "strs": {1: [("s", b"\x01" * nn + b"\0"), ("s", b"zz\0")], 2: [("s", b"\x01" * (nn + 1) + b"\0")]}})
-    n = ctx.n(150, 1200)
+    # every other argument format at its boundaries; struct type names: none, gcc's <lambda, one that needs escaping,
+    # a long one that ends the buffer in the middle of the name
+    allk = [("t", 0), ("f", (129 << 1) | 1), ("f", 1 << 1), ("d", 100000), ("d", 100001), ("d", (1 << 64) - 100000),
+            ("d", (1 << 64) - 100001), ("d", 0xffff0000), ("d", 0xffff0001), ("d", 0xffffffff), ("d", 1 << 32), ("i", (1 << 64) - 1),
+            ("i", 1 << 63), ("i", (1 << 63) - 1), ("x", 0), ("x", (1 << 64) - 1), ("o", 0), ("o", 8), ("o", (1 << 64) - 1), ("t", 0)]
+    for tn, tsz in ((None, 0), (b"<lambda", 8), (b'pa"ir<\\,\x01\xff>'.replace(b",", b""), 16), (b"\x01" * 500, 4), (b"plain", 0)):
+        fixed.append({"tasks": [(100, 100, None)], "syms": [b"main", b"strfn"], "sample": 1, "exe": "prog",
+                      "argkinds": "".join(k for k, _ in allk), "tname": tn, "tsize": tsz,
+                      "recs": [(100, True, 0, 1000), (100, True, 1, 1100), (100, False, 1, 1200), (100, False, 0, 1300)],
+                      "strs": {1: list(allk)}})
+    n = ctx.n(100, 1200)
     d = os.path.join(ctx.scratch, "dir")
     i = -1
     while True:
@@ -1280,6 +1624,12 @@ def run(ctx):
             except ParseError as e:
                 ctx.violation("dump --chrome with a filter that leaves no record failed: %s" % e,
                               {"kind": "dir", "case": case_json(c)}, True)
+        if i % 3 == 1:
+            try:
+                p["flameA"] = run_flame_auto(objdir, c, d, ctx.rng)      # changes the info file: last command on d
+                extra_tags.append("flame:automatic-sample-time")
+            except ParseError as e:
+                ctx.violation("dump --flame-graph with a record date failed: %s" % e, {"kind": "dir", "case": case_json(c)}, True)
         cases.append(c)
         parsed.append(p)
         ctx.case(key=("dir", tuple(c["syms"]), tuple(c["recs"])), nontrivial=len(c["recs"]) >= 2,
@@ -1288,7 +1638,7 @@ def run(ctx):
     # memory safety of the argument text: the directories with the longest argument texts through the ASan build
     asan = build.get_build("asan", ctx.log)
     heavy_cases = sorted((c for c in cases if c.get("strs")),
-                         key=lambda c: -max(sum(len(x) if kd == "s" else 1 for kd, x in v) for v in c["strs"].values()))
+                         key=lambda c: -max(sum(len(x) if kd == "s" else 8 for kd, x in v) for v in c["strs"].values()))
     shorties = [c for c in cases if c.get("strs") and any(kd == "s" and len(x) <= 3 for v in c["strs"].values() for kd, x in v)]
     for c in heavy_cases[:ctx.n(4, 40)] + shorties[:ctx.n(3, 20)]:
         write_dir(c, d)
